@@ -1,4 +1,4 @@
-import GateryModel.C03.LemmasMisc
+import GateryModel.C03.LemmasSigned
 /-!
 # C03 — property theorems: operators compute their mathematical definition at every width
 
@@ -185,16 +185,23 @@ theorem fe_mux (pol : Pol) (sel : BV4) (table : List BV4) (w : Nat) (hsel : sel.
 
 /-! ## defects of the signed operators built from unsigned nodes (`SignalCompareOp.cpp:37-48`, `SignalArithmeticOp.cpp:49-77`) -/
 
-/-- `lt(SInt, SInt)` = sign of the difference taken in one bit more than the wider operand (`SignalCompareOp.cpp:40-48`, after
-    the repair `ff2206d`; before it the same-width difference overflowed: `-2 < 1` on 2 bits evaluated to 0 — the check
-    re-discovered that as `op=lt|gt|leq|geq class=signed-difference-overflows`).  Full statement, not yet proved for all
-    widths: `∀ a b, a.length ≥ 1 → b.length ≥ 1 → a.allDef → b.allDef → slt a b = .ok (Spec.scmp .LT a b)`; checked by the
-    correspondence on every generated case, and here on the former counterexample and on a mixed-width instance. -/
-theorem signed_lt_partial :
-    slt [.f, .t] [.t, .f] = .ok (Spec.scmp .LT [.f, .t] [.t, .f]) ∧ Spec.scmp .LT [.f, .t] [.t, .f] = [.t] ∧
-    toInt [.f, .t] = -2 ∧ toInt [.t, .f] = 1 ∧
-    sgeq [.t, .t, .t] [.f, .t, .f, .f, .t] = .ok (Spec.scmp .GEQ [.t, .t, .t] [.f, .t, .f, .f, .t]) := by
-  refine ⟨rfl, by decide, by decide, by decide, rfl⟩
+/-- **signed order comparisons** `lt / gt / leq / geq` on `SInt` (`SignalCompareOp.cpp:40-54`: sign of the difference taken in
+    one bit more than the wider operand, after repair `ff2206d`) are the order on the two's-complement readings, for all
+    widths `≥ 1`, mixed widths included.  (Before the repair the same-width difference overflowed, `-2 < 1` on 2 bits
+    evaluated to 0; the check had re-discovered that as `op=lt|gt|leq|geq class=signed-difference-overflows`.) -/
+theorem signed_compare_correct (a b : BV4) (hla : 1 ≤ a.length) (hlb : 1 ≤ b.length) (ha : a.allDef = true) (hb : b.allDef = true) :
+    slt a b = .ok (Spec.scmp .LT a b) ∧ sgt a b = .ok (Spec.scmp .GT a b) ∧
+    sleq a b = .ok (Spec.scmp .LEQ a b) ∧ sgeq a b = .ok (Spec.scmp .GEQ a b) :=
+  ⟨slt_eq_spec a b hla hlb ha hb, sgt_eq_spec a b hla hlb ha hb, sleq_eq_spec a b hla hlb ha hb, sgeq_eq_spec a b hla hlb ha hb⟩
+
+/-- sign extension (`sext`, the default expansion of `SInt`) preserves the two's-complement value -/
+theorem sext_toInt (a r : BV4) (w : Nat) (ha : a.allDef = true) (h : Spec.extend .sign a w = some r) : r.toInt = a.toInt := by
+  rcases extend_cases h with ⟨_, rfl⟩ | ⟨hlt, fb, rfl, hfb⟩
+  · rfl
+  · rcases hfb with ⟨hp, _⟩ | ⟨hp, _⟩ | ⟨_, h0, rfl⟩
+    · cases hp
+    · cases hp
+    · exact toInt_sext a _ (by omega) ha
 
 /-- `mul(SInt, SInt)` of different widths multiplies `abs` values that inherit the operand's *sign* expansion policy:
     `sext(-2 : 2 bit) * (1 : 4 bit)` evaluates to `+2`.  Re-discovered by the check as `op=mul class=mixed-widths/…`. -/
@@ -222,5 +229,6 @@ example : Spec.norm .none .sign (ofNat 65 (2^64 + 5)) [.t, .f, .t] =
 example : (ofNat 65 (2^64 + 5)).allDef = true ∧ BV4.allDef [.t, .f, .t] = true := by decide
 example : (Spec.shift .left .rotate [.t, .f, .f] 1) = [.f, .t, .f] := by decide
 example : (7 : Nat) > ([.t, .f, .f] : BV4).length := by decide
+example : slt [.f, .t] [.t, .f] = .ok [.t] ∧ toInt [.f, .t] = -2 ∧ toInt [.t, .f] = 1 := ⟨rfl, by decide, by decide⟩
 
 end Gatery.C03.Props
